@@ -261,7 +261,7 @@ PROPS["C13"] = {
     "kind": "harness", "test": "TestC13", "level": "exploration", "race": True,
     "tiers": tiers(6, 8, 40, 16, qtimeout=900, ttimeout=3000),
     "rule": "rapid-generated schedules: 6-14 statements (CREATE TABLE, INSERT, UPDATE, DELETE, SELECT) run through a Session with the REAL 100 ms flush timer in a binary built with -race; for up to 4 generated statements the verif hook parks the session goroutine for 120-350 ms (1-3 ticks) "
-            "at the statement's log write (all its page changes done, log append pending) or, for statements that do not log, at a generated cache access; generated idle gaps of 0-150 ms let ticks land before, inside and after statements. "
+            "at the statement's log write (all its page changes done, log append pending) or, for statements that do not log (CREATE TABLE, SELECT), at a generated page lookup; generated idle gaps of 0-150 ms let ticks land before, inside and after statements. "
             "Oracles: (1) monitor: while a statement is parked no flush, page write or header write may happen on another goroutine; (2) every race-detector report with one side inside engine.EvaluateCreateTable/Insert/Update/Delete/Select and the other inside the flusher is a violation "
             "(other reports, e.g. USE racing the timer, are counted as out of scope); (3) table contents equal the model afterwards. Non-trivial: a DDL/DML statement was parked and the flusher demonstrably waited (it flushed within 60 ms after the park ended); distinct by schedule JSON.",
     "technique": "schedule-controlled testing: generated delay injection through build-tag hooks + happens-before race detection (-race) as a sanitizer, scoped to the property",
@@ -270,6 +270,6 @@ PROPS["C13"] = {
     "assumptions": ["the race detector sees every conflicting access pair that actually executes without a happens-before edge"],
 }
 
-HOOK_COMMITS = ["7ca683e"]
+HOOK_COMMITS = ["7ca683e", "9610f73"]
 
 NOT_APPLICABLE = {}
